@@ -134,6 +134,83 @@ def list_index(c, e, env, lets):
     raise Undecided("cannot resolve the list that is pushed to (%s)" % atom_name(c, e))
 
 
+def message_rule(rule, repo):
+    from .. import fmtargs
+    from ..hir import pat_binds
+    fid = "<pest_typed::tracker::SpecialError as alloc::string::ToString>::to_string"
+    b = repo.body(fid)
+    if b is None:
+        cands = [f for f in repo.bodies if "SpecialError" in f and ("to_string" in f or "::fmt" in f)]
+        if not cands:
+            rule.violate("SpecialError", "no message function found (anchor lost)")
+            return
+        fid = cands[0]
+        b = repo.body(fid)
+
+    def peel(e):
+        while e["k"] in ("addr_of", "use", "cast") or (e["k"] == "unary" and e.get("op") == "*") or (e["k"] == "block" and not e.get("stmts") and "tail" in e):
+            e = e["tail"] if e["k"] == "block" else e["e"]
+        return e
+
+    def fmt_calls(e):
+        return [n for n in walk(e) if n["k"] in ("call", "mcall") and n.get("callee") and
+                strip_generics(n["callee"]["path"]) in ("alloc::fmt::format", "core::fmt::Write::write_fmt", "core::fmt::Formatter::write_fmt")]
+
+    def visit(e, pos, variant):
+        """pos: var -> payload position"""
+        e = peel(e)
+        if e["k"] == "match" and e.get("src") == "normal":
+            scr = peel(e["scrut"])
+            for arm in e["arms"]:
+                p2 = dict(pos)
+                v2 = variant
+                pat = arm["pat"]
+                while pat["k"] in ("ref", "deref"):
+                    pat = pat["p"]
+                if pat["k"] == "tstruct":
+                    name = pat["res"].get("path", "?").rsplit("::", 1)[-1]
+                    if scr["k"] == "local" and scr["var"] in pos:
+                        # an inner test of a payload field (`match end { Some(end) => .. }`): what it binds is that field
+                        for bnd in pat_binds(pat):
+                            p2[bnd["var"]] = pos[scr["var"]]
+                    else:
+                        v2 = name
+                        p2 = {}
+                        for i, sub in enumerate(pat.get("ps", [])):
+                            for bnd in pat_binds(sub):
+                                p2[bnd["var"]] = i
+                elif pat["k"] in ("expr", "path") and not (scr["k"] == "local" and scr["var"] in pos):
+                    v2 = (pat.get("res") or {}).get("path", "?").rsplit("::", 1)[-1]
+                    p2 = {}
+                visit(arm["body"], p2, v2)
+            return
+        calls = fmt_calls(e)
+        if not calls or not pos:
+            return
+        for cnode in calls:
+            ps = fmtargs.pieces(cnode)
+            key = "%s: %s" % (variant, " ".join(x if isinstance(x, str) else "{}" for x in (ps or []))[:60])
+            loc = repo.loc(cnode.get("sp"))
+            if ps is None:
+                rule.violate(key, "message template cannot be decoded", loc)
+                continue
+            order = []
+            for x in ps:
+                if isinstance(x, tuple):
+                    v = peel(x[1])
+                    order.append(pos.get(v.get("var")) if v["k"] == "local" else None)
+            avail = sorted(set(pos.values()))
+            if None in order:
+                rule.violate(key, "a placeholder prints something that is not a payload field of %s" % variant, loc)
+            elif order != sorted(order) or len(set(order)) != len(order):
+                rule.violate(key, "payload fields of %s are printed in the order %s, declared order is %s" % (variant, order, avail), loc)
+            elif not order:
+                rule.violate(key, "the message of %s prints none of its payload" % variant, loc)
+            else:
+                rule.inst(key, loc, "ok", {"payload_positions": order})
+    visit(b["value"], {}, "?")
+
+
 def run(ctx):
     fs = facts.load("core", "fx_macros")
     c = fs["pest_typed"]
@@ -431,6 +508,11 @@ def run(ctx):
                     rsp.violate(k2, "`%s` is recorded %s: the report would state it although it need not be true there" % (
                         lab, ("under %s of %s" % (parent[0], parent[1][:120])) if parent else "unconditionally"), loc, edt.fmt(t))
     rsp.require(10, "recording sites")
+    # what a special error says: the message of a variant with payload prints every payload position once, in declaration order
+    # (seed C10-7: "Peek slice {}..{}" printed with end and start swapped — the report names a slice the grammar never asked for)
+    rmsg = ctx.rule("R10-MSG", "SpecialError's message for a variant prints that variant's payload fields, each once, in declaration order")
+    message_rule(rmsg, fs["pest_typed"])
+    rmsg.require(2, "messages with payload")
 
     # ---- polarity & wrap on EDTs
     rp = ctx.rule("R10-POLARITY", "positive look-ahead runs its operand under polarity true, negative look-ahead under polarity false")
